@@ -3,7 +3,7 @@
    half is also checked on the simulation model by correspondence and an independent transition checker (harness/propcheck.py c03). *)
 From Coq Require Import ZArith List Bool.
 From V Require Import Model.Num Model.Status Model.Live Gen.StatusC Proofs.LiveP.
-From V Require Model.Sim Model.SimLoop Model.SimGuard Model.SimCases Model.Examples Proofs.SimResetP Proofs.SimLinkP Proofs.SimAwaitP Proofs.SimLifeP.
+From V Require Model.Sim Model.SimLoop Model.SimGuard Model.SimCases Model.Examples Proofs.SimResetP Proofs.SimLinkP Proofs.SimAwaitP Proofs.SimLifeP Proofs.SimFrozenP.
 From V Require Import Model.Guards Proofs.GuardsP.
 Open Scope Z_scope.
 
@@ -116,6 +116,16 @@ Theorem C03_sim_run_request_in_flight : forall tb cf n sc es s,
   Sim.so_bet o <> None /\ (SimAwaitP.awaits (Sim.so_status o) (SimLoop.pk_kind p) \/ Sim.so_status o = SExecComplete).
 Proof. exact SimLifeP.run_request_in_flight_static. Qed.
 Print Assumptions C03_sim_run_request_in_flight.
+(* (5) finality of the sizes: an order that is complete after a prefix of a run has the same status, matched size and fragments after the whole run *)
+Theorem C03_sim_run_matched_frozen_after_completion : forall tb cf n sc es1 es2 s,
+  SimGuard.cfg_ok_b cf = true -> SimGuard.initial_b s = true -> forallb (SimGuard.event_b2 sc n) (es1 ++ es2) = true ->
+  forallb (SimGuard.event_b3 sc n) (es1 ++ es2) = true -> SimGuard.keys_ok_b sc n (es1 ++ es2) = true -> forall m o,
+  In m (SimLoop.s_markets (fold_left (SimLoop.step tb cf n sc) es1 s)) -> In o (SimLoop.mk_orders m) -> Sim.so_status o = SExecComplete ->
+  exists m' o', In m' (SimLoop.s_markets (fold_left (SimLoop.step tb cf n sc) (es1 ++ es2) s)) /\ SimLoop.mk_id m' = SimLoop.mk_id m /\
+                In o' (SimLoop.mk_orders m') /\ Sim.so_name o' = Sim.so_name o /\
+                Sim.so_status o' = SExecComplete /\ Sim.so_matched o' = Sim.so_matched o /\ Sim.so_frags o' = Sim.so_frags o.
+Proof. exact SimFrozenP.run_matched_frozen_after_completion_static. Qed.
+Print Assumptions C03_sim_run_matched_frozen_after_completion.
 (* non-vacuity: a run that satisfies the five hypotheses, with a cancel in flight after four updates and completed after five *)
 Definition c03_bk (pt : Z) : Sim.book := Examples.xbook pt Sim.MOpen 1 [Examples.xrunner 1 Sim.RActive None [(20000, 300)] [(21000, 500)] []].
 Definition c03_script : SimLoop.script :=
